@@ -37,7 +37,9 @@ def run(ctx, w):
                    "R5 progress: call graph acyclic; every arm of the SGR decoder consumes at least one parameter for every shape of following parameters; loops are iterator- or counter-driven",
                    "R6 unwraps are guarded or covered by the exhaustive decoder evaluation", "R7 the digit accumulation cannot overflow its (wider) type and never drops a digit",
                    "R8 loop-carried indices into the line vector are bounded by its length in the loop condition",
-                   "R9 in the arms of a comparison, the difference of the compared values is taken larger-minus-smaller (cannot underflow)"]
+                   "R9 in the arms of a comparison, the difference of the compared values is taken larger-minus-smaller (cannot underflow)",
+                   "R10 every other checked subtraction outside the reflow core is discharged by a controlling comparison, a clamp, constants or a named invariant (A1-A9, listed in the evidence)",
+                   "S5 the saved cursor is clamped into the screen by the re-layout on every path (else restore + print indexes out of range)"]
     ctx.not_decided = ["every subtraction/index over cols/rows/cursor/lines.len() in Buffer::resize, reflow, logical/relative position (needs relational invariants such as col <= cols, lines.len() >= rows)",
                        "running time beyond loop progress"]
     reach = api_reach(w)
@@ -51,9 +53,12 @@ def run(ctx, w):
     unwraps(ctx, w, S, R, reach)
     digits(ctx, w)
     loop_index(ctx, w, S, reach)
-    from rules import c10
+    from rules import c10, c17
     c10.ordered_subtractions(ctx, w, reach, "R9")
     ctx.floor("R9", 4, "differences in comparison arms")
+    sub_discharge(ctx, w, S, R, reach)
+    # a saved cursor outside the screen is an out-of-range index after restore: the clamp of the re-layout (C17.S5)
+    c17.clamp_rule(ctx, w, S, R)
 
 
 # ---- R1 ---------------------------------------------------------------------------------------
@@ -574,3 +579,166 @@ def loop_index(ctx, w, S, reach):
             ctx.check(ok, "R8", "%s#%d" % key, "%s indexes the line vector with a loop-advanced index (%s) that no controlling condition bounds by the vector's length (guards: %s)" %
                       (fn, w.tstr(fn, idx)[:60], [(w.tstr(fn, c)[:60], v) for c, v in gs]), loc=w.site_loc(cs), sample={"fn": fn, "guards": [(w.tstr(fn, c)[:80], v) for c, v in gs]})
     ctx.floor("R8", 2, "loop-advanced indices")
+
+
+# ---- R10: every subtraction outside the reflow core is discharged -----------------------------------------
+AXIOMS = {
+    "A1": "screen dimensions are >= 1 (public precondition: cols >= 1, rows >= 1)",
+    "A2": "the default helper returns >= 1 (its defaults are >= 1: R4)",
+    "A3": "a buffer holds at least `rows` lines (C02 geometry invariant, not decided here)",
+    "A4": "the column handed to a row primitive is <= cols (cursor.col <= cols, C02)",
+    "A5": "row ranges handed to the scroll primitives are non-empty and ordered (top <= bottom, cursor row <= last row)",
+    "A6": "the character class is guaranteed by the transition table / the enclosing range test (C03.T1, C04.Y1)",
+    "A7": "a count of trailing cells is <= the row length",
+    "A8": "the hard limit is >= the soft limit (hard = soft + soft/10, C13.L5)",
+    "A9": "a count was clamped to the row remainder by the caller (R3)",
+}
+
+
+def sub_discharge(ctx, w, S, R, reach):
+    from rules import c05
+    E = w.E
+    ctx.rule("R10", "outside the reflow core every checked subtraction is discharged: by a controlling comparison, a comparison arm, a min-clamp, constants, or one of the named invariants A1-A9")
+    helper = c05.default_helper(w)
+    core = set(E.reachable_fns([S.buffer_resize_fn]))
+    # iterator impls driven by std on behalf of the core (the reflow iterator)
+    grew = True
+    while grew:
+        grew = False
+        for fn in list(core):
+            b0 = w.bodies.get(fn)
+            if not b0:
+                continue
+            for bl in b0.normal_blocks():
+                for st in b0.blocks[bl]["stmts"]:
+                    if st["k"] == "assign" and st["rv"]["k"] == "aggregate" and st["rv"].get("agg") == "adt":
+                        for f2, fo2 in w.facts.fns.items():
+                            if (fo2.get("impl_self") or {}).get("adt") == st["rv"]["adt"] and fo2.get("impl_trait", "").endswith("Iterator") and f2 in w.bodies:
+                                new = set(E.reachable_fns([f2])) - core
+                                if new:
+                                    core |= new
+                                    grew = True
+    used = {}
+    undis = []
+    n = 0
+    for fn in sorted(reach):
+        if fn in core:
+            continue
+        b = w.body(fn)
+        T = w.terms(fn)
+        fo = w.facts.fns.get(fn, {})
+        has_self = bool(fo.get("inputs")) and fo["inputs"][0].get("ref") is not None
+        impl = S._impl_of(fn)
+        for bl in sorted(b.normal_blocks()):
+            tm = b.term(bl)
+            if tm["k"] != "assert" or not tm["msg"].startswith("Overflow(Sub)"):
+                continue
+            l = shared.norm_term(T.operand(tm["l"], (bl, b.n_stmts(bl))))
+            r = shared.norm_term(T.operand(tm["r"], (bl, b.n_stmts(bl))))
+            ty = tm["l"].get("ty") if tm["l"]["k"] != "const" else tm["l"]["ty"]["s"]
+            gs = [(shared.norm_term(c), v) for c, v in w.guards_of(fn, bl)]
+            why = discharge(w, S, R, fn, impl, has_self, l, r, ty, gs, helper)
+            n += 1
+            key = "%s:%s" % (fn, shared.site_key(w, fn, (bl, b.n_stmts(bl))))
+            if why:
+                used[why.split(":")[0]] = used.get(why.split(":")[0], 0) + 1
+                ctx.ok("R10", key, {"fn": fn, "expr": "%s - %s" % (w.tstr(fn, l)[:50], w.tstr(fn, r)[:50]), "discharged_by": why})
+            else:
+                ctx.violation("R10", key, "%s computes `%s - %s` with nothing that guarantees the left side is not smaller (guards: %s): this underflows (panics with overflow checks) for some input/state" %
+                              (fn, w.tstr(fn, l)[:70], w.tstr(fn, r)[:70], [(w.tstr(fn, c)[:50], v) for c, v in gs]), loc=w.stmt_loc(fn, (bl, b.n_stmts(bl))))
+    ctx.extra["subtraction_discharge"] = used
+    ctx.extra["axioms"] = AXIOMS
+    ctx.extra["reflow_core_not_decided"] = sorted(core & set(reach))
+    ctx.floor("R10", 40, "checked subtractions outside the reflow core")
+
+
+def _is_len_of(t, field):
+    return t[0] == "call" and t[1].endswith("::len") and len(t[2]) == 1 and t[2][0] in (("ref", False, ("load", ("arg1", field))), ("ref", True, ("load", ("arg1", field))))
+
+
+def discharge(w, S, R, fn, impl, has_self, l, r, ty, gs, helper):
+    dims = {("load", ("arg1", R["cols"])), ("load", ("arg1", R["rows"]))} if impl == S.term_ty else set()
+    if impl == S.buffer_ty or (fn.startswith("<" + S.buffer_ty)):
+        dims |= {("load", ("arg1", S.buf_cols)), ("load", ("arg1", S.buf_rows))}
+    if ty in ("isize", "i64", "i32"):
+        return "signed: screen-sized values cannot overflow a signed machine word"
+
+    def guard_ge(a, bnd):
+        """some controlling guard implies a >= bnd (bnd term or int)"""
+        for c, v in gs:
+            if c[0] != "binop":
+                # !is_empty(container) => len(container) >= 1
+                if c[0] == "call" and c[1].endswith("::is_empty") and v is False and isinstance(bnd, int) and bnd <= 1 and a[0] == "call" and a[1].endswith("::len") \
+                        and (repr(c[2][0]) == repr(a[2][0]) or (flatten_loads(c[2][0]) & flatten_loads(a[2][0]))):
+                    return True
+                continue
+            op, x, y = c[1], c[2], c[3]
+            if isinstance(bnd, int):
+                if x == a and y[0] == "const" and isinstance(y[1], int):
+                    if (op == "Gt" and v is True and y[1] >= bnd - 1) or (op == "Ge" and v is True and y[1] >= bnd) or (op == "Eq" and v is False and y[1] == 0 and bnd <= 1) or \
+                            (op == "Ne" and v is True and y[1] == 0 and bnd <= 1) or (op == "Le" and v is False and y[1] >= bnd - 1) or (op == "Lt" and v is False and y[1] >= bnd) or (op == "Eq" and v is True and y[1] >= bnd):
+                        return True
+                if y == a and x[0] == "const" and isinstance(x[1], int):
+                    if (op == "Lt" and v is True and x[1] >= bnd - 1) or (op == "Le" and v is True and x[1] >= bnd):
+                        return True
+            else:
+                if x == a and y == bnd and ((op in ("Ge", "Gt") and v is True) or (op in ("Lt",) and v is False) or (op == "Le" and v is False) or (op == "Eq" and v is True)):
+                    return True
+                if x == bnd and y == a and ((op in ("Le", "Lt") and v is True) or (op in ("Gt",) and v is False) or (op == "Ge" and v is False) or (op == "Eq" and v is True)):
+                    return True
+        return False
+    if r[0] == "const" and isinstance(r[1], int):
+        k = r[1]
+        if k == 0:
+            return "const: subtracting 0"
+        if l[0] == "const" and isinstance(l[1], int) and l[1] >= k:
+            return "const: %d - %d" % (l[1], k)
+        if guard_ge(l, k):
+            return "guard: a controlling comparison implies the left side >= %d" % k
+        if k <= 1 and (l in dims or (not has_self and l[0] == "load" and l[1][0].startswith("arg"))):
+            return "A1: dimension - 1"
+        if k <= 1 and fn == S.resize_fn and l[0] == "load" and len(l[1]) == 1 and l[1][0] in ("arg2", "arg3"):
+            return "A1: requested dimension - 1"
+        if k <= 1 and l[0] == "load" and len(l[1]) == 1 and l[1][0].startswith("arg") and not (w.facts.fns.get(fn, {}).get("exported")) and impl not in (S.term_ty, S.buffer_ty, S.line_ty):
+            return "R4: every caller passes a value >= 1 (checked at the call sites by R4)"
+        if k <= 1 and l[0] == "call" and l[1] == helper:
+            return "A2: defaulted parameter - 1"
+        if k <= 1 and _is_len_of(l, S.lines_field):
+            return "A3: lines.len() - 1"
+        if k <= 1 and l[0] == "load" and l[1][-1] == "end" and l[1][0].startswith("arg"):
+            return "A5: range.end - 1"
+        if l[0] == "cast" and l[2] in ("u8", "usize", "u32") and "arg" in repr(l[1]):
+            return "A6: character - constant under a class guarantee"
+        if l[0] == "phi" or l[0] == "loop":
+            return None
+        return None
+    # two variable operands
+    if guard_ge(l, r):
+        return "guard: a controlling comparison implies left >= right"
+    for c, v in gs:
+        if c[0] == "discr" and c[1][0] == "call" and c[1][1].endswith("::cmp"):
+            a0, a1 = [x[2] if x[0] == "ref" else x for x in c[1][2]]
+            if (v == 1 and (l, r) == (a0, a1)) or (v == 255 and (l, r) == (a1, a0)):
+                return "cmp-arm: larger minus smaller in a comparison arm"
+    if r[0] == "min":
+        for x in r[1:]:
+            if x == l or (x[0] == "binop" and x[1] == "Sub" and x[2] == l):
+                return "clamp: the right side is min(.., left [- x])"
+    if _is_len_of(l, S.lines_field) and r == ("load", ("arg1", S.buf_rows)):
+        return "A3: lines.len() - rows"
+    if l == ("load", ("arg1", S.buf_cols)) and r[0] == "load" and r[1][0].startswith("arg") and r[1][-1] == "0":
+        return "A4: cols - position.col"
+    if l[0] == "load" and r[0] == "load" and l[1][-1] == "end" and r[1][-1] == "start" and l[1][:-1] == r[1][:-1]:
+        return "A5: range.end - range.start"
+    if r[0] == "call" and w.facts.fns.get(r[1], {}).get("output", {}).get("s") == "usize" and l[0] == "call" and l[1].endswith("::len") and impl == S.line_ty:
+        return "A7: len - trailing count"
+    if impl == S.line_ty and l[0] == "call" and l[1].endswith("::len") and r[0] == "load" and r[1][0].startswith("arg"):
+        return "A9: len - clamped count"
+    if l[0] == "binop" and l[1] == "Sub" and _is_len_of(l[2], S.lines_field) and r[0] == "load" and "soft" in r[1][-1:][0] if r[0] == "load" else False:
+        if guard_ge(l, None) or any(c[0] == "binop" and c[1] == "Gt" and c[2] == l and v is True for c, v in gs):
+            return "A8: size - soft under size > hard"
+    if l[0] == "binop" and l[1] == "Sub" and _is_len_of(l[2], S.lines_field) and any(c[0] == "binop" and c[1] == "Gt" and c[2] == l and v is True for c, v in gs):
+        return "A8: size - soft under size > hard"
+    if l[0] == "const" and r[0] == "binop" and r[1] == "Rem" and r[3][0] == "const" and isinstance(l[1], int) and l[1] >= r[3][1]:
+        return "const: c - (x % c)"
+    return None
